@@ -10,7 +10,7 @@ TEXT = ("TLC explores the reader as a state machine over abstract lines and file
         "with every returned result cloned and re-checked after reading ends.")
 NOTE = ("Trusted: rendering of abstract lines to text in the harness, TLC. Numeric field values are tokens here (C03), unit "
         "rewriting is C04. Line lengths are bounded; byte soups beyond the alphabet are sampled, not exhausted.")
-TECHNIQUE = "TLA+ model checking (TLC) + per-transition replay through benchfmt.Files/Reader + exhaustive short-line table"
+TECHNIQUE = "TLA+ model checking (TLC) + per-transition replay through benchfmt.Files/Reader + exhaustive short-line table + trace validation of byte soups"
 DESIGN_REF = "DESIGN.md section 4 C02"
 
 RULE = ("(M) exhaustive TLC on FmtReader.tla (invariants SlotsMatchCfg, IndexSound, Snapshot, LabelsDistinct, NoLeakAcrossFiles, "
@@ -41,15 +41,39 @@ def run(ctx):
             nontriv += 1
     ctx.add_samples([cases[len(cases) // 3]], 1)
     ctx.replay("fmtreader", cases, "replay of TLC-generated line sequences through benchfmt.Files")
-    nl = 0
-    if os.path.exists(os.path.join(ctx.specdir, "FmtLine_gen.tla")):
-        nl = run_fmtline(ctx)
+    nl = run_fmtline(ctx)
+    nsoup = run_soup(ctx)
     ctx.cov["distinct_nontrivial"] = nontriv + nl
     ctx.cov["exhaustive"] = True
     return ctx.finish(RULE, assumptions=[
         "numeric fields are tokens (valid / invalid); their values are property C03",
         "inputs naming the same path have the same content",
     ])
+
+
+def run_soup(ctx):
+    """(T) byte soups: recorded reads of generated files validated line by line by FmtSoup_trace."""
+    ntr = 8 if ctx.quick else 80
+    tp = os.path.join(ctx.work, "soup.ndjson")
+    ctx.harness(["fmtline", "record", tp, ntr])
+    events = ctx.read_ndjson(tp)
+    ok, hwm, r = ctx.trace_validate("FmtSoup_trace.tla", "FmtSoup_trace.cfg", tp, timeout=3000)
+    if not ok:
+        bad = events[min(hwm, len(events) - 1)]
+        # reproducible by construction (seeded generator): record again and compare the event
+        tp2 = os.path.join(ctx.work, "soup2.ndjson")
+        ctx.harness(["fmtline", "record", tp2, ntr])
+        ok2, hwm2, r2 = ctx.trace_validate("FmtSoup_trace.tla", "FmtSoup_trace.cfg", tp2, timeout=3000)
+        if ok2:
+            raise vlib.Infra("soup trace rejection did not reproduce (event %d)" % hwm)
+        kinds = [x.get("kind") for x in bad.get("recs", [])]
+        ctx.report([{"signature": "soup-line-records", "family": "fmtline-soup",
+                     "detail": "line %r: reader returned %s, not what the format prescribes (event %d)" % ("".join(bad.get("chars", []))[:200], kinds, hwm),
+                     "event": {k: (v if k != "chars" else "".join(v)[:300]) for k, v in bad.items()}}], "byte-soup trace validation")
+    ctx.cov["traces_validated_against_impl"] += ntr
+    ctx.cov["soup_lines"] = sum(1 for e in events if e.get("ev") == "line")
+    ctx.cov["evaluations"] += ctx.cov["soup_lines"]
+    return ntr
 
 
 def run_fmtline(ctx):
